@@ -18,7 +18,7 @@ pub enum Err<E> { Incomplete(Needed), Error(E), Failure(E) }
 pub mod error {
     use vstd::prelude::*;
     #[derive(Debug)]
-    pub enum ErrorKind { Eof, Tag, Digit, TooLarge, ManyMN, Count, AlphaNumeric, MapRes, Verify, TakeUntil, Alt, IsA, HexDigit, Char }
+    pub enum ErrorKind { Tag, MapRes, MapOpt, Alt, IsNot, IsA, SeparatedList, SeparatedNonEmptyList, Many0, Many1, ManyTill, Count, TakeUntil, LengthValue, TagClosure, Alpha, Digit, HexDigit, OctDigit, AlphaNumeric, Space, MultiSpace, LengthValueFn, Eof, Switch, TagBits, OneOf, NoneOf, Char, CrLf, RegexpMatch, RegexpMatches, RegexpFind, RegexpCapture, RegexpCaptures, TakeWhile1, Complete, Fix, Escaped, EscapedTransform, NonEmpty, ManyMN, Not, Permutation, Verify, TakeTill1, TakeWhileMN, TooLarge, Many0Count, Many1Count, Float, Satisfy, Fail }
     #[derive(Debug)]
     pub struct Error<I> { pub input: I, pub code: ErrorKind }
     impl<I> Error<I> {
@@ -38,6 +38,7 @@ impl ToUsize for u8 { open spec fn as_int(&self) -> int { *self as int } }
 impl ToUsize for u16 { open spec fn as_int(&self) -> int { *self as int } }
 impl ToUsize for u32 { open spec fn as_int(&self) -> int { *self as int } }
 impl ToUsize for usize { open spec fn as_int(&self) -> int { *self as int } }
+impl ToUsize for u64 { open spec fn as_int(&self) -> int { *self as int } }
 
 /// Output integer type of `bits::complete::take`.  `val` is the mathematical value of the result
 /// seen as the *unsigned* count-bit field (signed outputs are only used with count < width, where
